@@ -88,8 +88,8 @@ def is_call_stmt(name):
 
 
 def run(repo, res, tier):
-    res.rule("REF-CLEAN", "cleanup functions re-assign every reference field from a filter against the right id set", 15)
-    res.rule("REF-AFTER", "deletion from a registry is followed by the matching cleanup on that path", 3)
+    res.rule("REF-CLEAN", "after a clean-up no reference names a missing id and none to a present id is lost", 3)
+    res.rule("REF-AFTER", "after removing a lanelet / sign / light / intersection no reference names it, references to what is left are kept", 8)
     res.rule("REF-CUT", "cut-out filters intersection references by the kept ids and copies only referenced signs/lights", 9)
     res.rule("REF-HANG", "hanging signs/lights = referenced by removed minus referenced by remaining lanelets", 4)
     net = repo.cls(L, "LaneletNetwork")
@@ -102,77 +102,11 @@ def run(repo, res, tier):
             if not cands or not any(isinstance(n, ast.Attribute) and n.attr == f for n in ast.walk(cands[0].node)):
                 raise AnalysisError("reference field %s.%s no longer exists" % (hc, f))
 
-    # ---------------- REF-CLEAN
-    for kind, (reg, cfn, fields) in REF_FIELDS.items():
-        fn = repo.method(L, "LaneletNetwork", cfn)
-        rd = ReachingDefs(fn)
-        # id set: a local defined as set(self.<reg>.keys()) / set(self.<reg>)
-        idvars = {}
-        for n in walk_no_nested(fn):
-            if isinstance(n, ast.Assign) and len(n.targets) == 1 and isinstance(n.targets[0], ast.Name):
-                idvars[n.targets[0].id] = canon(n.value, rd, n, [])
-        r0 = reg.lstrip("_")
-        good_ids = {v for v, txt in idvars.items() if txt in ("set(self.%s.keys())" % r0, "set(self.%s)" % r0, "self.%s.keys()" % r0, "frozenset(self.%s)" % r0, "frozenset(self.%s.keys())" % r0, "{*self.%s}" % r0)}
-        res.check("REF-CLEAN", "%s: existing-id set taken from %s" % (cfn, reg), bool(good_ids), mod, fn, "%s existing ids %s" % (cfn, sorted(idvars.items())), "the set of existing %s ids is not read from self.%s" % (kind, reg), qualname="LaneletNetwork." + cfn)
-        stores = {}
-        for n in walk_no_nested(fn):
-            if isinstance(n, ast.Assign) and len(n.targets) == 1 and isinstance(n.targets[0], ast.Attribute):
-                stores.setdefault(n.targets[0].attr, []).append(n)
-        for hc, f in fields:
-            inst = "%s re-assigns %s.%s filtered by existing %s ids" % (cfn, hc, f, kind)
-            ok = False
-            why = "field is not re-assigned"
-            for st in stores.get(f, []):
-                v = st.value
-                txt = norm(v)
-                uses_ids = any(isinstance(x, ast.Name) and x.id in good_ids for x in ast.walk(v))
-                src_attr = COMPANION.get(f, f.lstrip("_"))
-                reads_same = any(isinstance(x, ast.Attribute) and x.attr in (f, f.lstrip("_")) for x in ast.walk(v))
-                reads_key = any(isinstance(x, ast.Attribute) and x.attr in (src_attr, "_" + src_attr) for x in ast.walk(v))
-                filt = ".intersection(" in txt or " not in " in txt or " in " in txt or " & " in txt
-                if uses_ids and reads_same and reads_key and filt:
-                    ok = True
-                    continue
-                # conditional reset: `if <key> not in ids: field = None / empty`
-                empty = (isinstance(v, ast.Constant) and v.value is None) or txt in ("[]", "set()", "list()", "{}", "frozenset()")
-                if empty:
-                    for t, pol in dominating_guards(mod, st, stop=fn):
-                        if isinstance(t, ast.Compare) and len(t.ops) == 1 and ((isinstance(t.ops[0], ast.NotIn) and pol) or (isinstance(t.ops[0], ast.In) and not pol)):
-                            la_ = t.left
-                            if isinstance(la_, ast.Attribute) and la_.attr.lstrip("_") in (f.lstrip("_"), src_attr) and isinstance(t.comparators[0], ast.Name) and t.comparators[0].id in good_ids:
-                                ok = True
-                    if ok:
-                        continue
-                why = "value %s does not filter the field by the existing ids" % txt[:80]
-            res.check("REF-CLEAN", inst, ok, mod, (stores.get(f) or [fn])[0], "%s: %s.%s" % (cfn, hc, f), "after a removal %s.%s may still contain the removed id: %s" % (hc, f, why), qualname="LaneletNetwork." + cfn)
-        # holders are iterated completely
-        loops = [norm(n.iter) for n in walk_no_nested(fn) if isinstance(n, ast.For)]
-        for hc in sorted({h for h, _f in fields if h in HOLDER_ITER}):
-            res.check("REF-CLEAN", "%s iterates all %s" % (cfn, hc), any(x in HOLDER_ITER[hc] for x in loops), mod, fn, "%s loops %s" % (cfn, loops), "not every %s of the network is cleaned" % hc, qualname="LaneletNetwork." + cfn)
+    # ---------------- REF-CLEAN, REF-AFTER: decided by abstract evaluation on a densely cross-referenced network
+    # (c10ev): after every clean-up / removal no reference names a missing id and none to a present id is lost
+    from . import c10ev
 
-    # ---------------- REF-AFTER
-    n_del = 0
-    for mn, fn in net.methods.items():
-        for n in walk_no_nested(fn):
-            if isinstance(n, ast.Delete):
-                for t in n.targets:
-                    if isinstance(t, ast.Subscript):
-                        ch = attr_chain(t.value)
-                        for kind, (reg, cfn, _f) in REF_FIELDS.items():
-                            if ch == ["self", reg]:
-                                n_del += 1
-                                ok = follows_unconditionally(mod, n, is_call_stmt("self." + cfn), fn)
-                                res.check("REF-AFTER", "%s: %s followed by %s" % (mn, norm(n), cfn), ok, mod, n, "%s: %s" % (mn, norm(n)), "a %s is deleted without cleaning the references to it on that path" % kind, qualname="LaneletNetwork." + mn)
-            # pop / clear on registries count as deletions too
-            if isinstance(n, ast.Call) and isinstance(n.func, ast.Attribute) and n.func.attr in ("pop", "popitem", "clear"):
-                ch = attr_chain(n.func.value)
-                for kind, (reg, cfn, _f) in REF_FIELDS.items():
-                    if ch == ["self", reg]:
-                        st = n
-                        while not isinstance(st, ast.stmt):
-                            st = mod.parent[st]
-                        ok = follows_unconditionally(mod, st, is_call_stmt("self." + cfn), fn)
-                        res.check("REF-AFTER", "%s: %s followed by %s" % (mn, norm(n), cfn), ok, mod, n, "%s: %s" % (mn, norm(n)), "a %s is deleted without cleaning the references to it on that path" % kind, qualname="LaneletNetwork." + mn)
+    c10ev.reference_rules(repo, res)
 
     # ---------------- REF-CUT
     cut = repo.method(L, "LaneletNetwork", "create_from_lanelet_network")
